@@ -16,6 +16,7 @@ from ..ref import ed25519 as E
 from ..ref import isa, sigmsg
 
 ID = 'C18'
+BUILDER_DEFAULTS = True     # tools.* goes through tsverif/omit.py
 RULE = ('chains n = 2..8 from random seeds and key sets, per-hop sigfields, '
         'with and without refund keys (PTLC second lock); per chain: tweak '
         'point identity T_i = sum_{j<=i} y_j*G and final key (pure Python), '
